@@ -386,6 +386,115 @@ def _norm(lf):
     return {k: v for k, v in (lf or {}).items() if v != 0}
 
 
+def r_fmtbound(P, chk):
+    """`(v)snprintf(buf, n, ..)` into a buffer this function has just allocated with malloc(m): n and m must be the same
+    quantity.  n < m silently cuts the end of the formatted text (the closing `>` of a tag), n > m overruns the buffer."""
+    from .rules_misc import _linear
+    from .rules_mem import _reaches
+    rid = "R-FMTBOUND"
+    chk.rule(rid, "the size handed to (v)snprintf equals the size of the buffer malloc'ed for it in the same function (linear "
+                  "arithmetic; the operands are not changed in between)")
+    n = 0
+    for f in P.all_funcs:
+        if not P.first_party(f) or f.unit.base in ("miniz.c", "argtable3.c"):
+            continue
+        calls = [c for c in f.calls() if c.get("callee") in ("snprintf", "vsnprintf") and len(c["c"]) > 3]
+        if not calls:
+            continue
+        pos = f.cfg.positions()
+        for c in calls:
+            dst = key(c["c"][1])
+            allocs = []
+            for x in f.walk():
+                rhs = None
+                if x["k"] == "BinaryOperator" and x["op"] == "=" and key(x["c"][0]) == dst:
+                    rhs = x["c"][1]
+                elif x["k"] == "VarDecl" and x.get("n") == dst and x.get("c") and x["c"][0] is not None:
+                    rhs = x["c"][0]
+                r = strip(rhs) if rhs is not None else None
+                if r is not None and r["k"] == "CallExpr" and r.get("callee") in ("malloc", "calloc") and x.get("i") in pos:
+                    allocs.append((x, r))
+            allocs = [(x, r) for x, r in allocs if f.cfg.dominates(x["i"], c["i"])]
+            if len(allocs) != 1:
+                continue          # a caller-supplied or stack buffer: R-ARRAY / R-HEAPIDX territory
+            x, r = allocs[0]
+            size_e = r["c"][1] if r["callee"] == "malloc" else None
+            if size_e is None:
+                continue
+            n += 1
+            a, b = _linear(f, size_e), _linear(f, c["c"][2])
+            ok = a is not None and b is not None and {k_: v for k_, v in a.items() if v} == {k_: v for k_, v in b.items() if v}
+            # the variables both expressions mention are not changed between the allocation and the call
+            if ok:
+                names = {k_ for k_ in a if k_ != 1}
+                for y in f.walk():
+                    if (y["k"] == "BinaryOperator" and y["op"] == "=" or y["k"] == "CompoundAssignOperator" or
+                            (y["k"] == "UnaryOperator" and y["op"] in ("post++", "pre++", "post--", "pre--"))) and key(y["c"][0]) in names \
+                            and y.get("i") in pos and y is not x:
+                        if _reaches(f, pos, x, y, []) and _reaches(f, pos, y, c, []):
+                            ok = False
+            chk.obligation(rid, "%s %s: %s(%s, %s, ..) into malloc(%s)" % (f.where(c), f.name, c["callee"], dst, key(c["c"][2]), key(size_e)), ok)
+            if not ok:
+                chk.violation(rid, "fmtbound:%s:%s" % (f.name, dst), f.where(c),
+                              "%s formats into `%s`, allocated with malloc(%s), but bounds the output by `%s`: the formatted text is cut "
+                              "short (or overruns the buffer) whenever it needs the whole allocation" % (
+                                  f.name, dst, f.src(size_e), f.src(c["c"][2])))
+    chk.floor(rid, n, 1, "(v)snprintf calls into a buffer allocated in the same function")
+
+
+def r_valist(P, chk):
+    """A va_list is consumed by the first v*printf-style call it is handed to (C11 7.16: its value is indeterminate
+    afterwards).  On no CFG path may it be handed to a second consumer without va_end + va_start (or a va_copy) in between."""
+    from .rules_mem import _reaches
+    rid = "R-VALIST"
+    chk.rule(rid, "a va_list is handed to at most one consumer between va_start and va_end on every CFG path (a second "
+                  "v*printf on the same list reads whatever follows the real arguments)")
+    n = 0
+    for f in P.all_funcs:
+        if not P.first_party(f) or f.unit.base in ("miniz.c", "argtable3.c"):
+            continue
+        starts = [c for c in f.calls("__builtin_va_start")]
+        if not starts:
+            continue
+        pos = f.cfg.positions()
+        for ap in sorted({key(c["c"][1]) for c in starts}):
+            cons = [c for c in f.calls() if c.get("callee") not in ("__builtin_va_start", "__builtin_va_end", "__builtin_va_copy")
+                    and any(key(a) == ap for a in c["c"][1:]) and c["i"] in pos]
+            resets = [c for c in f.calls() if c.get("callee") in ("__builtin_va_start", "__builtin_va_copy") and key(c["c"][1]) == ap and c["i"] in pos]
+            n += 1
+            bad = None
+            for c1 in cons:
+                for c2 in cons:
+                    if _reaches(f, pos, c1, c2, resets) and (c1 is not c2 or True):
+                        if c1 is c2:
+                            # the same call again: only through a loop back edge
+                            b = pos[c1["i"]][0]
+                            seen, st, loop = set(), list(f.cfg.blocks[b].rsucc), False
+                            rb = {pos[r["i"]][0] for r in resets}
+                            while st:
+                                x = st.pop()
+                                if x in seen or x in rb:
+                                    continue
+                                seen.add(x)
+                                if x == b:
+                                    loop = True
+                                    break
+                                st.extend(f.cfg.blocks[x].rsucc)
+                            if not loop:
+                                continue
+                        bad = (c1, c2)
+                        break
+                if bad:
+                    break
+            chk.obligation(rid, "%s %s: `%s` has %d consumer(s), never two on one path" % (f.where(), f.name, ap, len(cons)), bad is None)
+            if bad:
+                chk.violation(rid, "valist:%s:%s" % (f.name, ap), f.where(bad[1]),
+                              "%s hands `%s` to %s (line %d) after %s (line %d) already consumed it, with no va_end/va_start or va_copy in "
+                              "between: the second call formats from indeterminate arguments" % (
+                                  f.name, ap, bad[1].get("callee"), bad[1]["l"], bad[0].get("callee"), bad[0]["l"]))
+    chk.floor(rid, n, 2, "va_list objects started in first-party functions")
+
+
 def r_editloop(P, chk):
     from .rules_misc import _linear
     rid = "R-DSTR/editloop"
